@@ -20,6 +20,9 @@ def run(tier, seed):
     q = tier == 'quick'
     stage_main.run_rows(chk)
     cases = [dict(id=i, seed=rng.randrange(10 ** 9)) for i in range(640 if q else 64000)]
+    rp = replay_input()
+    if rp and rp['kind'] == 'argv':
+        cases.insert(0, dict(id=2 * 10 ** 6, seed=1, argv=list(rp['value']), what=['replay']))
     # a fixed grid of option combinations around the constructors that validate several options together
     W = ['-w', '5,0,0,5,0,0,15,0.001', '--excitation-pulse=3']
     grid = []
